@@ -117,11 +117,11 @@ Fixpoint gmismatches_from (i : nat) (cs : list gcase) : list nat :=
 Definition gmismatches_named (cs : list gcase) : list nat := gmismatches_from 0 cs.
 
 (* ---- expression statements: order in which the calls run (Model/C02_Hoist.v, contains the recorded defects) ---- *)
-Inductive hstmt := HAssign (e : hexpr) | HIndexAssign (idx rhs : hexpr).
+Inductive hstmt := HAssign (e : hexpr) | HIndexAssign (idx rhs : hexpr) | HDelegated (args : list hexpr).
 Record hcase := { hc_stmt : hstmt; hc_trace : list nat }.
 
 Definition hmodel (s : hstmt) : list nat :=
-  match s with HAssign e => trace_assign e | HIndexAssign i r => trace_index_assign i r end.
+  match s with HAssign e => trace_assign e | HIndexAssign i r => trace_index_assign i r | HDelegated a => trace_delegated a end.
 
 Definition hcase_ok (c : hcase) : bool := list_eqb Nat.eqb (hmodel (hc_stmt c)) (hc_trace c).
 
